@@ -53,7 +53,7 @@ out.append("| seed | what was changed | check | detected | violation keys / note
 out.append("|---|---|---|---|---|")
 nd = 0
 tot = 0
-for d in sorted(glob.glob(os.path.join(V, "seeded", "C*-m*"))):
+for d in sorted(os.path.dirname(x) for x in glob.glob(os.path.join(V, "seeded", "C*", "meta.json"))):
     n = os.path.basename(d)
     meta = json.load(open(os.path.join(d, "meta.json")))
     det = {}
@@ -67,6 +67,17 @@ for d in sorted(glob.glob(os.path.join(V, "seeded", "C*-m*"))):
     out.append("| %s | %s | %s | %s | %s |" % (n, str(meta.get("summary", "")).replace("|", "/")[:230], det.get("property", meta.get("detect_with") or meta["property"]), "yes" if det.get("detected") else "NO", note.replace("|", "/")))
 out.append("")
 out.append("Detected: %d of %d.\n" % (nd, tot))
+fr = os.path.join(V, "fixrevert.json")
+if os.path.exists(fr):
+    rows = json.load(open(fr))
+    out.append("### 9.7 Every repaired defect is re-detected when its repair is reverted (`tools/fixrevert.py`, `fixrevert.json`)\n")
+    out.append("Each `fix:` commit is reverted on its own in a scratch copy of the repository (all later repairs stay) and the property's quick check is run.\n")
+    out.append("| commit | property | exit | violation keys |")
+    out.append("|---|---|---|---|")
+    for r in rows:
+        out.append("| `%s` | %s | %s | %s |" % (r["commit"], r["property"], r.get("exit"), ", ".join(r.get("violation_keys", [])[:3]) or ("NOT DETECTED" if not r.get("detected") else "")))
+    out.append("")
+    out.append("Re-detected: %d of %d.\n" % (sum(1 for r in rows if r.get("detected")), len(rows)))
 txt = open(os.path.join(V, "DESIGN.md")).read()
 a, b = "<!-- AUTO:BEGIN -->", "<!-- AUTO:END -->"
 if a in txt:
